@@ -7,6 +7,8 @@ Type term T (JSON lists):
   ["list", T] ["seq", T] ["coll", T] ["set", T] ["dict", K, V] ["mapping", K, V] ["tuple", [T...]]
   ["opt", T] ["pipenone", T] ["nonepipe", T] ["union", [T...]] ["pipe", [T...]]
   ["literal", [v...]]  ["callable", [T...], R]  ["generic", "pkg.mod:Name", [T...]]  ["final", T]
+  ["listn", [T...]] ["setn", [T...]]   list/set with several type arguments (illegal for the type checker, legal input
+                                        for the tool: only meaningful at the top level of an annotation)
   ["raw", python_source, [[module, name]...]]   (opaque, never judged by C05)
 """
 
@@ -101,6 +103,10 @@ def render_py(t: list, imports: Imports, here: str) -> str:
         return f"Mapping[{render_py(t[1], imports, here)}, {render_py(t[2], imports, here)}]"
     if k == "tuple":
         return f"tuple[{', '.join(render_py(x, imports, here) for x in t[1])}]"
+    if k == "listn":
+        return f"list[{', '.join(render_py(x, imports, here) for x in t[1])}]"
+    if k == "setn":
+        return f"set[{', '.join(render_py(x, imports, here) for x in t[1])}]"
     if k == "opt":
         imports.add("typing", "Optional")
         return f"Optional[{render_py(t[1], imports, here)}]"
@@ -147,7 +153,7 @@ def depth(t: list) -> int:
         return 1 + depth(t[1])
     if k in {"dict", "mapping"}:
         return 1 + max(depth(t[1]), depth(t[2]))
-    if k in {"tuple", "union", "pipe"}:
+    if k in {"tuple", "union", "pipe", "listn", "setn"}:
         return 1 + max([depth(x) for x in t[1]], default=0)
     if k == "callable":
         return 1 + max([depth(x) for x in t[1]] + [depth(t[2])])
@@ -171,7 +177,7 @@ def kinds_in(t: list) -> set[str]:
 
 _KINDS = {
     "int", "str", "bool", "float", "none", "any", "cls", "enum", "ext", "tvar", "list", "seq", "coll", "set", "dict",
-    "mapping", "tuple", "opt", "pipenone", "nonepipe", "union", "pipe", "literal", "callable", "generic", "final", "raw",
+    "mapping", "tuple", "opt", "pipenone", "nonepipe", "union", "pipe", "literal", "callable", "generic", "final", "raw", "listn", "setn",
 }  # fmt: skip
 
 
@@ -241,6 +247,10 @@ def tr(t: list, position: str = "param") -> tuple:
         return ("named", "Map", (tr(t[1]), tr(t[2])))
     if k == "tuple":
         return ("named", "Tuple", tuple(tr(x) for x in t[1]))
+    if k == "listn":
+        return ("named", "List", tuple(tr(x) for x in t[1]))
+    if k == "setn":
+        return ("named", "Set", tuple(tr(x) for x in t[1]))
     if k in {"opt", "pipenone", "nonepipe"}:
         return mk_union([tr(t[1]), N])
     if k in {"union", "pipe"}:
